@@ -7,6 +7,7 @@ import json, shutil, subprocess, sys
 from pathlib import Path
 V = Path(__file__).resolve().parent.parent
 pid, wt, i = sys.argv[1], Path(sys.argv[2]), sys.argv[3]
+out_i = sys.argv[4] if len(sys.argv) > 4 else i  # number under which it is kept (round 6: r4, r5)
 sd = wt / "_refactor"
 def sh(cmd, **kw):
     return subprocess.run(cmd, shell=True, capture_output=True, text=True, **kw)
@@ -32,7 +33,7 @@ for seed in (0, 1):
         except Exception: pass
 if not ok:
     sys.exit("rewrite not confirmed; not imported")
-d = V / "seeded" / "harmless" / f"{pid}-r{i}"
+d = V / "seeded" / "harmless" / f"{pid}-r{out_i}"
 d.mkdir(parents=True, exist_ok=True)
 shutil.copy(sd / f"patch{i}.diff", d / "patch.diff")
 shutil.copy(sd / f"equiv{i}.py", d / "equiv.py")
@@ -40,7 +41,7 @@ notes = (sd / f"notes{i}.md").read_text() if (sd / f"notes{i}.md").exists() else
 (d / "notes.md").write_text(notes)
 meta = {"property": pid, "kind": "harmless rewrite (the property must still hold; the check should stay quiet)",
         "confirmed": {"applies": True, "suite": t, "equiv_clean_exit": r0, "equiv_patched_exit": r1},
-        "ran": [f"tools/with_patched_repo -p seeded/harmless/{pid}-r{i}/patch.diff -- ./check {pid}"],
+        "ran": [f"tools/with_patched_repo -p seeded/harmless/{pid}-r{out_i}/patch.diff -- ./check {pid}"],
         "check_results": results, "quiet": all(v["exit"] == 0 for v in results.values())}
 (d / "meta.json").write_text(json.dumps(meta, indent=1) + "\n")
 sh("rm -rf replays", cwd=V)
